@@ -241,6 +241,15 @@ class Machine(object):
             refs = [{"source_name": "s", "external_id": "e"}]
             self.extra.extend([labels, refs])
             kw = {"labels": labels} if op.get("flag") else {"external_references": refs}
+            variant = b % 4
+            if variant and k == "new_version":
+                # changes handed over through the constructor's custom_properties= keyword: a caller-owned dictionary with specification-defined
+                # keys, custom keys and nested containers; variant 3 is refused (unmodifiable property) -- the dictionary stays as it was either way
+                cp = {1: {"description": "via custom_properties", "x_c": {"k": [1, {"z": []}]}},
+                      2: {"modified": "9990-01-01T00:00:00.000Z", "x_c": {"k": [1]}, "labels": ["l3"]},
+                      3: {"created_by_ref": "identity--7e4ba2c2-6b3e-4a0f-9a6e-0e2f5f5d0a20", "description": "refused", "x_c": [[], {}]}}[variant]
+                self.extra.append(cp)
+                kw = dict(kw, custom_properties=cp)
             if k == "new_version":
                 res, _ = self.guarded_call(k, lambda: target.new_version(**kw), None)
             else:
